@@ -37,9 +37,14 @@ def make_script(rng, n_ops):
             # a burst (sometimes two, from both sides) for the next tick, then the tick
             for _ in range(1 + rng.below(2)):
                 i = rng.below(2)
-                ops.append(("data", i, W.tx_datagram(vers[i], fn, rng.below(8), rng.choice([0, 5, 20]), W.rand_burst(rng, rng.choice([148, 148, 444])))))
+                # mostly for the frame ticked next, sometimes queued AHEAD of the clock (the L1 submits bursts early): FAKE_DROP / RFMUTE
+                # commands arriving while a burst waits in the queue change what happens to it in ITS frame, never the queue itself
+                ahead = rng.choice([0, 0, 0, 1, 2, 3])
+                ops.append(("data", i, W.tx_datagram(vers[i], (fn + ahead) % W.H, rng.below(8), rng.choice([0, 5, 20]), W.rand_burst(rng, rng.choice([148, 148, 444])))))
+            if rng.chance(1, 3):
+                ops.append(("ctrl", rng.below(2), W.cmd("CMD RFMUTE %d" % rng.below(2))))
             ops.append(("tick", fn))
-            fn = (fn + rng.choice([1, 1, 1, 2, 3])) % W.H
+            fn = (fn + rng.choice([1, 1, 1, 1, 1, 2, 3])) % W.H
         if rng.chance(1, 12):
             ops.append(("ctrl", rng.below(2), W.rejected_cmd(rng)))      # refused / ignored: counter, period, mute and version stay as they are
     ops.append(("state",))
